@@ -8,12 +8,17 @@ library's parser and evaluated with the library's interpreter under every reacha
 assignment.  The meaning of a leaf is the value of the text emitted for that leaf ALONE under the
 same bindings, so the oracle (mc.ref.c7nbool) never depends on what a clause translates to.
 
-Sub-spaces
-  A  value leaves:   every shape x {all leaves ``resource["ki"]``, value forms cycling by position}
-  B  one compound:   every smaller shape x every leaf position x every leaf family of the alphabet
+Sub-spaces (bounds per tier in ``bounds()``; shapes are bounded by depth, leaves and connective nodes)
+  A  value leaves:   every shape x {all leaves ``resource["ki"]``, value forms cycling by position} x both
+                     entry points
+  B  one compound:   every smaller shape x every leaf position x every leaf family of the alphabet there
                      (the other leaves are plain ``resource["ki"]``)
-  C  all compound:   every shape with <= 2 leaves x every tuple of leaf families (with a common
-                     resource type); thorough adds 3-leaf shapes over the operator-class representatives
+  C  all compound:   every shape with <= 2 leaves x every tuple of leaf families that has a common resource
+                     type, and (representatives of each top-level operator class) on deeper / 3-leaf shapes
+
+A violating tree is shrunk (children hoisted / dropped, compound leaves replaced by plain ones, while it still
+violates the same way) and the residue, with list/and -> all, or -> any, not -> nall and leaves named by the
+top-level operator class of their own text, is the root-cause signature.
 
 Compound clauses call Custodian host functions; these are STUBS supplied through ``functions=`` to the
 interpreted runner (what the real c7nlib functions compute is C17's business, whether they can be
@@ -21,6 +26,7 @@ reached under the compiled runner is C14's).
 """
 import collections
 import contextlib
+import functools
 import io
 import itertools
 import json
@@ -397,7 +403,7 @@ def run_text(text, raw, key=None):
     key = key or world_key(raw)
     o = _EVALS.get((text, key))
     if o is None:
-        if len(_EVALS) > 400000:
+        if len(_EVALS) > 150000:
             _EVALS.clear()
         res, ev, world = raw
         WORLD.clear()
@@ -524,7 +530,7 @@ def _violates(tree, fams, entry, kind):
     key = (tree, fams, entry, kind)
     r = _SHRINK_CACHE.get(key)
     if r is None:
-        if len(_SHRINK_CACHE) > 200000:
+        if len(_SHRINK_CACHE) > 100000:
             _SHRINK_CACHE.clear()
         vd = judge(tree, fams, entry, first_only=True)
         r = _SHRINK_CACHE[key] = (vd.status == "violation" and vd.kind == kind)
@@ -623,21 +629,26 @@ def bounds(tier):
     """(max depth, max leaves, max connectives) per sub-space; C is a list of (shape bound, min leaves, family list)."""
     names = [f.name for f in FAMILIES]
     if tier == "thorough":
-        return {"A": (4, 5, 4), "B": (3, 4, 3), "B_all": (3, 4, 3),
-                "C": [((3, 2, 3), 1, names), ((2, 3, 2), 3, REPS)]}
+        return {"A": (4, 5, 4), "B": (3, 4, 3), "B_all": (3, 3, 3),
+                "C": [((3, 2, 2), 1, names), ((2, 3, 2), 3, REPS)]}
     return {"A": (3, 5, 3), "B": (3, 3, 2), "B_all": (3, 3, 2),
             "C": [((1, 2, 1), 1, names), ((3, 2, 2), 1, REPS)]}
 
 
+@functools.lru_cache(maxsize=4)
+def _shapes_cached(d, n, m):
+    return c7nbool.shapes(d, n, m)
+
+
 def cycle_max_leaves(tier):
-    return 5 if tier == "thorough" else 4
+    return 4
 
 
 def shard_A(task):
     tier, lo, hi = task
     part = runner.Part()
     d, n, m = bounds(tier)["A"]
-    ss = c7nbool.shapes(d, n, m)
+    ss = _shapes_cached(d, n, m)
     done = 0
     for tree in ss[lo:hi]:
         nl = c7nbool.leaves(tree)
@@ -655,6 +666,7 @@ def shard_A(task):
     return part
 
 
+@functools.lru_cache(maxsize=2)
 def placements(tier):
     """Sub-space B: (tree, position, family).  Representatives over the larger shape bound, every family over
     the smaller one (the two sets of shapes are nested, so the union is taken)."""
@@ -700,6 +712,7 @@ def shard_B(task):
     return part
 
 
+@functools.lru_cache(maxsize=2)
 def tuples_C(tier):
     """Union of the C specifications (a later specification skips what an earlier one already contains)."""
     out, seen = [], set()
@@ -774,6 +787,7 @@ def _alphabet_task(_):
 
 def run(ctx):
     c7nbool.selftest()
+    celrun.Prog("I", "true")    # build the (interpreted-kind) parser once in the parent; forked workers inherit it
     assert top_op('a ? b : c') == "cond" and top_op('(a || b) && c') == "and" and top_op('! x.f("a || b")') == "not"
     assert top_op('x["a"] == "?"') == "rel" and top_op('f(a && b)') == "atom" and top_op("a in [1]") == "rel"
     b = bounds(ctx.tier)
@@ -841,6 +855,8 @@ def _replay(w):
             print(f"    leaf {i} alone: {leaf_text(f, i, rtype)[1]}")
         print(f"    emitted   : {vd.text}")
         if vd.status == "violation":
+            res, ev, world = build_world(fams, vd.world)
+            print(f"    bindings  : resource={res} now={NOW} event={ev}; stub host functions see {world}")
             print(f"    VIOLATES ({vd.kind}) in world {vd.world}: leaves alone = {vd.leaf_values}; combinators give {vd.expected}; emitted text gives {vd.observed}")
             if label == "witness":
                 status = 1
